@@ -58,6 +58,7 @@ func checkC16(c *Check) {
 		"the helpers SMTPCode/SMTPEnchCode are path-evaluated per temporariness edge; converter defaults, the field-map reader/writer type agreement, the provenance of the reply text and the ASCII mask boundary are checked."
 	c.notCover = "errors assembled at run time from nested wrappers whose fields come from different layers; whether each individual failure site picked the semantically right class."
 	c.Assume("A1: go-smtp replaces EnhancedCode{0,0,0} (EnhancedCodeNotSet) by class.0.0 derived from the basic code")
+	c.Assume("A2: where a converter keeps its default class because the typed error carries no enhanced code, the default was chosen by the temporariness predicate of that same error, which for go-smtp's SMTPError is Code/100 == 4")
 
 	c.Rule("R1", "every SMTP error literal: class(Code) in {4,5} and EnhancedCode[0] in {class(Code), 0=not set} on every path", 50)
 	c.Rule("R1m", "every field-map literal with smtp_code and smtp_enchcode: same coherence", 1)
@@ -82,6 +83,7 @@ func checkC16(c *Check) {
 		info := fi.Info()
 		bad := ""
 		n := 0
+		flattened := map[*ast.BlockStmt]bool{}
 		ast.Inspect(fi.Decl.Body, func(x ast.Node) bool {
 			var list []ast.Stmt
 			switch bs := x.(type) {
@@ -94,9 +96,30 @@ func checkC16(c *Check) {
 			default:
 				return true
 			}
+			if bs, isBlock := x.(*ast.BlockStmt); isBlock && flattened[bs] {
+				return true
+			}
 			type cp struct{ dst, src, field string }
 			var copies []cp
+			// `if src.EnhancedCode[0] != 0 { dst.EnhancedCode = src.EnhancedCode }` belongs to the enclosing list: the
+			// guard only keeps the default class when the source has none (assumption A2)
+			var flat []ast.Stmt
 			for _, st := range list {
+				flat = append(flat, st)
+				if is, ok := st.(*ast.IfStmt); ok && is.Else == nil && is.Init == nil {
+					if be, ok := ast.Unparen(is.Cond).(*ast.BinaryExpr); ok && (be.Op == token.NEQ || be.Op == token.GTR) {
+						if ix, ok := ast.Unparen(be.X).(*ast.IndexExpr); ok {
+							if sel, ok := ast.Unparen(ix.X).(*ast.SelectorExpr); ok && sel.Sel.Name == "EnhancedCode" && fieldOf(info, sel) != nil {
+								if z, ok := constInt(info.Types[be.Y]); ok && z == 0 {
+									flat = append(flat, is.Body.List...)
+									flattened[is.Body] = true
+								}
+							}
+						}
+					}
+				}
+			}
+			for _, st := range flat {
 				as, ok := st.(*ast.AssignStmt)
 				if !ok || len(as.Lhs) != len(as.Rhs) {
 					continue
